@@ -202,3 +202,28 @@ def blob_packets(tier="quick"):
                         "ans": [{"name": [b"big"], "class": 1, "ttl": 60, "cf": False, "rdata": ("T", tname, vals)},
                                 {"name": [b"big"], "class": 1, "ttl": 60, "cf": False, "rdata": ("T", "A", [("I", 0x0a000001)])}]})
     return out
+
+
+def huge_packets(rng, offsets=(0, 1, 40, 16000, 16380, 16384, 20000)):
+    """messages longer than 64 KiB (nothing in the API forbids them): two large opaque records put the next names at offset
+    65536 + k for each k (inside and just outside the first 16 KiB after the 64 KiB mark), names first seen there are then
+    repeated as owner names and as CNAME / NS / MX RDATA: a position kept in 16 bits, or tested only against the two marker
+    bits, sends their pointers into the first 16 KiB"""
+    out = []
+    for k in offsets:
+        p = {"id": 7, "opcode": 0, "rcode": 0, "flags": 0x8400, "opt": None, "nss": [], "adds": [],
+             "qs": [{"name": [b"early", b"example"], "qtype": 255, "qclass": 1, "uni": False}], "ans": []}
+        # header 12 + question (15 + 4) = 31; each opaque record: 2 (pointer owner) + 10 + len
+        fill = 65536 + k - 31 - 2 * 12
+        a = min(65000, fill - 200)
+        p["ans"].append({"name": [b"early", b"example"], "class": 1, "ttl": 1, "cf": False, "rdata": ("U", 65280, bytes((i * 7) & 0xFF for i in range(a)))})
+        p["ans"].append({"name": [b"early", b"example"], "class": 1, "ttl": 1, "cf": False, "rdata": ("U", 65281, bytes((i * 5) & 0xFF for i in range(fill - a)))})
+        late = [b"late", b"host", b"zone"]
+        alias = [b"alias", b"elsewhere", b"test"]
+        p["ans"].append({"name": late, "class": 1, "ttl": 60, "cf": False, "rdata": ("T", "A", [("I", 0x0a000001)])})
+        p["ans"].append({"name": late, "class": 1, "ttl": 60, "cf": False, "rdata": ("T", "AAAA", [("I", 1)])})
+        p["ans"].append({"name": [b"www"] + late[1:], "class": 1, "ttl": 60, "cf": False, "rdata": ("T", "CNAME", [("N", alias)])})
+        p["nss"].append({"name": late[1:], "class": 1, "ttl": 60, "cf": False, "rdata": ("T", "NS", [("N", alias)])})
+        p["adds"].append({"name": alias, "class": 1, "ttl": 60, "cf": False, "rdata": ("T", "MX", [("I", 5), ("N", [b"mx"] + alias)])})
+        out.append(p)
+    return out
